@@ -474,6 +474,10 @@ func (g *Generator) generateWithoutSaving(parents []*theTypeInfo, t reflect.Type
 		if t == timeType {
 			return openapi3.NewSchemaRef(t.Name(), schema), nil
 		}
+		// A struct type without a name has no name to be a component under (all of them would share the empty one)
+		if t.Name() == "" {
+			return openapi3.NewSchemaRef("", schema), nil
+		}
 
 		typeName := g.generateTypeName(t)
 
